@@ -120,6 +120,9 @@ theorem hdrSt_ok (bufLen : Nat) (tr : Server.Transport) (payload id opcode : Nat
 
 /-! ### `handle_message` -/
 
+theorem qr_set : ∀ x : UInt8, x.toNat ≥ 128 → ((x.toNat &&& 128) != 0) = true := by
+  apply Wire.forall_uint8; decide +kernel
+
 theorem qr_clear : ∀ x : UInt8, x.toNat < 128 → ((x.toNat &&& 128) != 0) = false := by
   apply Wire.forall_uint8; decide +kernel
 
@@ -164,5 +167,168 @@ theorem handleMessage_eq (cfg : Server.Cfg) (tr : Server.Transport) (now bufLen 
       hnew]
     rw [hdr_prog _ _ _ _ _ hsz]
     rfl
+
+
+/-! ### a response is sent unless QDCOUNT > 1 -/
+
+theorem bind_true {α} (x : M α) (f : α → M Bool)
+    (hf : ∀ a s b s', f a s = (.ok b, s') → b = true) (s : State) (b : Bool) (s' : State)
+    (h : (x >>= f) s = (.ok b, s')) : b = true := by
+  rw [bind_apply] at h
+  rcases hx : x s with ⟨(a | e | _), s1⟩
+  · rw [hx] at h; exact hf a s1 b s' h
+  · rw [hx] at h; cases h
+  · rw [hx] at h; cases h
+
+theorem pure_true (s : State) (b : Bool) (s' : State) (h : (pure true : M Bool) s = (.ok b, s')) : b = true := by
+  rw [pure_apply] at h; cases h; rfl
+
+theorem scanAndDispatch_true (cfg : Server.Cfg) (tr : Server.Transport) (now an ns ar opcode : Nat)
+    (question : Option (WName × Nat × Nat)) (r1 : Reader) (s : State) (b : Bool) (s' : State)
+    (h : Server.scanAndDispatch cfg tr now an ns ar opcode question r1 s = (.ok b, s')) : b = true := by
+  unfold Server.scanAndDispatch at h
+  simp only at h
+  cases hs : Server.scanAnNs (an + ns) (setMark r1) with
+  | none =>
+    rw [hs] at h
+    exact bind_true _ _ (fun _ s b s' h => pure_true s b s' h) _ _ _ h
+  | some r3 =>
+    rw [hs] at h
+    refine bind_true _ _ (fun st s b s' h => ?_) _ _ _ h
+    cases st with
+    | none => exact pure_true _ _ _ h
+    | some st' =>
+      simp only at h
+      split at h
+      · exact bind_true _ _ (fun _ s b s' h => pure_true s b s' h) _ _ _ h
+      · split at h
+        · exact bind_true _ _ (fun _ s b s' h => pure_true s b s' h) _ _ _ h
+        · exact bind_true _ _ (fun _ s b s' h => pure_true s b s' h) _ _ _ h
+
+/-- `handle_message_with_context` clears `send_response` only for QDCOUNT > 1 -/
+theorem hwc_false (cfg : Server.Cfg) (tr : Server.Transport) (now : Nat) (req : Bytes) (h12 : 12 ≤ req.size)
+    (sH s' : State) (h : Server.handleWithContext cfg tr now ⟨req, 12, none⟩ sH = (.ok false, s')) :
+    Spec.Server.hdr req 4 > 1 := by
+  obtain ⟨hqd, han, hns, har, _, hop, _, _⟩ := reader_header req h12
+  unfold Server.handleWithContext at h
+  simp only [hqd, han, hns, har, hop] at h
+  have tail : ∀ (question : Option (WName × Nat × Nat)) (r1 : Reader) (b : Bool) (s' : State),
+      (Server.addQuestionOrServfail question >>= fun okQ =>
+          if (!okQ) = true then pure true
+          else Server.scanAndDispatch cfg tr now (Spec.Server.hdr req 6) (Spec.Server.hdr req 8)
+            (Spec.Server.hdr req 10) (((req.getD 2 0).toNat &&& 120) >>> 3) question r1) sH = (.ok b, s') →
+      b = true := by
+    intro question r1 b s' hh
+    refine bind_true _ _ (fun okQ s b s' h => ?_) _ _ _ hh
+    split at h
+    · exact pure_true _ _ _ h
+    · exact scanAndDispatch_true _ _ _ _ _ _ _ _ _ _ _ _ h
+  by_cases hq0 : Spec.Server.hdr req 4 = 0
+  · simp only [hq0, if_true] at h
+    have := tail none _ false s' h
+    cases this
+  · by_cases hq1 : Spec.Server.hdr req 4 = 1
+    · simp only [hq1, show ¬ ((1 : Nat) = 0) by omega, if_false, if_true] at h
+      rcases hrq : readQuestion (⟨req, 12, none⟩ : Reader) with ⟨(q | e | _), r1⟩
+      · rw [hrq] at h
+        simp only at h
+        rcases hwp : WName.parse q.qname with _ | ⟨qn, rest⟩
+        · rw [hwp] at h; simp only at h; cases h
+        · cases rest with
+          | nil =>
+            rw [hwp] at h
+            simp only at h
+            have := tail _ _ false s' h
+            cases this
+          | cons x xs => rw [hwp] at h; simp only at h; cases h
+      · rw [hrq] at h
+        simp only [RC_FORMERR] at h
+        have := bind_true _ _ (fun _ s b s' h => pure_true s b s' h) _ _ _ h
+        cases this
+      · rw [hrq] at h
+        simp only at h
+        cases h
+    · omega
+
+theorem handleMessage_short (cfg : Server.Cfg) (tr : Server.Transport) (now bufLen : Nat) (req : Bytes)
+    (hbuf : minBuf tr cfg.payload ≤ bufLen) (h12 : req.size < 12) :
+    Server.handleMessage cfg tr now bufLen req = .ok none := by
+  have : tryFrom req = .err .HeaderTooShort := by
+    unfold tryFrom; simp [Gen.HEADER_SIZE]; omega
+  unfold Server.handleMessage
+  cases tr with
+  | udp =>
+    simp only [minBuf] at hbuf
+    simp only [show ¬ bufLen < cfg.payload by omega, if_false, this]
+  | tcp =>
+    simp only [minBuf] at hbuf
+    simp only [show ¬ bufLen < 65535 by omega, if_false, this]
+
+theorem handleMessage_qr (cfg : Server.Cfg) (tr : Server.Transport) (now bufLen : Nat) (req : Bytes)
+    (hbuf : minBuf tr cfg.payload ≤ bufLen) (h12 : 12 ≤ req.size) (hqr : (req.getD 2 0).toNat ≥ 128) :
+    Server.handleMessage cfg tr now bufLen req = .ok none := by
+  obtain ⟨_, _, _, _, hid, hop, hq, hrd⟩ := reader_header req h12
+  have hqt : (((req.getD 2 0).toNat &&& 128) != 0) = true := qr_set _ hqr
+  have htf : tryFrom req = .ok ⟨req, 12, none⟩ := by
+    unfold tryFrom; simp [Gen.HEADER_SIZE, h12]
+  unfold Server.handleMessage
+  cases tr with
+  | udp =>
+    simp only [minBuf] at hbuf
+    simp only [show ¬ bufLen < cfg.payload by omega, if_false, htf, hq, hid, hop, hrd, hqt, if_true]
+  | tcp =>
+    simp only [minBuf] at hbuf
+    simp only [show ¬ bufLen < 65535 by omega, if_false, htf, hq, hid, hop, hrd, hqt, if_true]
+
+/-- **no-response conditions** (C03): `handle_message` returns no response exactly when the spec's
+    scan says so — fewer than twelve octets, QR set, or QDCOUNT > 1 — for every request, transport,
+    configuration and buffer -/
+theorem handleMessage_none_iff (cfg : Server.Cfg) (tr : Server.Transport) (now bufLen : Nat) (req : Bytes)
+    (hbuf : minBuf tr cfg.payload ≤ bufLen) (hpay : 512 ≤ cfg.payload)
+    (lookup : List UInt8 → Nat → Option Spec.Server.ZoneKind) :
+    Server.handleMessage cfg tr now bufLen req = .ok none ↔
+      (Spec.Server.specScanWith lookup cfg.payload req).respond = false := by
+  rw [specScanWith_eq]
+  by_cases h12 : req.size < 12
+  · simp only [h12, if_true]
+    have := handleMessage_short cfg tr now bufLen req hbuf h12
+    simp [this]
+  · simp only [h12, if_false]
+    have h12' : 12 ≤ req.size := by omega
+    by_cases hqr : (req.getD 2 0).toNat ≥ 128
+    · simp only [hqr, if_true]
+      have := handleMessage_qr cfg tr now bufLen req hbuf h12' hqr
+      simp [this]
+    · simp only [hqr, if_false]
+      rw [handleMessage_eq cfg tr now bufLen req hbuf hpay h12' (by omega)]
+      have hresp : (specBody lookup cfg.payload req).respond = false ↔ Spec.Server.hdr req 4 > 1 := by
+        unfold specBody
+        by_cases hgt : Spec.Server.hdr req 4 > 1
+        · simp [hgt]
+        · simp only [hgt, if_false, iff_false]
+          unfold specTail
+          repeat' split
+          all_goals simp
+      rw [hresp]
+      constructor
+      · intro h
+        split at h
+        · split at h <;> cases h
+        · rename_i s' heq
+          exact hwc_false cfg tr now req h12' _ s' heq
+        · cases h
+      · intro hgt
+        have hH := hdrSt_ok bufLen tr cfg.payload (Spec.Server.hdr req 0) (((req.getD 2 0).toNat &&& 120) >>> 3)
+          (((req.getD 2 0).toNat &&& 1) != 0) hbuf hpay
+        -- QDCOUNT > 1: `send_response = false`
+        have : Server.handleWithContext cfg tr now ⟨req, 12, none⟩
+            (hdrSt (w0 bufLen (lim0 tr)) (Spec.Server.hdr req 0) (((req.getD 2 0).toNat &&& 120) >>> 3)
+              (((req.getD 2 0).toNat &&& 1) != 0)) = (.ok false, hdrSt (w0 bufLen (lim0 tr)) (Spec.Server.hdr req 0)
+                (((req.getD 2 0).toNat &&& 120) >>> 3) (((req.getD 2 0).toNat &&& 1) != 0)) := by
+          obtain ⟨hqd, han, hns, har, _, hop, _, _⟩ := reader_header req h12'
+          unfold Server.handleWithContext
+          simp only [hqd, han, hns, har, hop, show ¬ Spec.Server.hdr req 4 = 0 by omega,
+            show ¬ Spec.Server.hdr req 4 = 1 by omega, if_false]
+        rw [this]
 
 end QV.ServerScan
